@@ -49,7 +49,9 @@ type Obs struct {
 	Tags      []string
 	TextFixed bool
 	Opts      []OptObs
-	next      func(choice int) *Obs
+	// OptsFailed: this error is an option group that could not be prepared (what the next call does then is not settled)
+	OptsFailed bool
+	next       func(choice int) *Obs
 }
 
 // Next continues the model after this observation. For option groups choice selects the option;
@@ -224,13 +226,17 @@ func (m *Machine) exec(s *Stmt, k func() *Obs) *Obs {
 		for _, opt := range s.Opts {
 			text, fixed, err := m.lineText(opt.Line)
 			if err != nil {
-				return m.errObs(k)
+				e := m.errObs(k)
+				e.OptsFailed = true
+				return e
 			}
 			disabled := false
 			if opt.Line.Cond != nil {
 				v, err := m.Eval(opt.Line.Cond)
 				if err != nil || v.K != VBool {
-					return m.errObs(k)
+					e := m.errObs(k)
+					e.OptsFailed = true
+					return e
 				}
 				disabled = !v.B
 			}
